@@ -5,6 +5,7 @@ import Astits.Props.C10
 import Astits.Proofs.CRCBurst
 import Astits.Model.PSI
 import Astits.Generated.Exprs
+import Astits.Proofs.PSIVerdict
 namespace Astits.C09
 
 /-- the LFSR step maps non-zero registers to non-zero registers (the generator polynomial is odd) -/
@@ -115,5 +116,157 @@ theorem corrupted_section_rejected (sec : List Bool) (a t : Nat) (b : List Bool)
 
 example : crcBit 0x80000000#32 = 0x04C11DB7#32 := by decide
 example : xorBits [true, false, true] [false, true, true] = [true, true, false] := by decide
+
+/-! ## The PARSER's verdict is the CRC verdict (proofs: `Astits/Proofs/PSIVerdict.lean`)
+
+Vocabulary (all in `Astits.PSIVerdict`):
+* `slice bs a n` — the `n` bytes of `bs` from position `a`;
+* `secStart d k` — start offset of the `k`-th returned section, computed from the RESULT `d`:
+  `1 + pointer_field + Σ_{j<k} (3 + section_length_j)`;
+* `hdrAt payload start` — the section header decoded from the three bytes at `start`;
+* `CRCValidOn payload start sl` — the byte range `[start, start+3+sl)` lies in the payload and the CRC_32 of its first
+  `sl - 1` bytes (table_id … last byte before the CRC field) equals the big-endian value of its last four bytes;
+* `Corrupted p p' a b t` — `p'` has bytes < 256 like `p` and, bit for bit (MSB first), is `p` XOR the pattern
+  `a` zeros, a one, the bits `b`, `t` zeros (`burst a b t`). -/
+
+open PSIVerdict (slice secStart hdrAt CRCValidOn Corrupted bits burst)
+
+/-- **V1 — a CRC mismatch is never delivered.**  For ANY payload bytes: if `parsePSIData` succeeds, every returned
+section whose table id carries a CRC_32 and whose section_length is not 0 (a) has its header decoded from the three
+bytes at its start offset, (b) lies inside the payload, (c) stores as `crc32` the big-endian value of the last four
+bytes of its byte range, and (d) that value IS `computeCRC32` of exactly the bytes of the section before the CRC
+field.  No hypothesis on the payload: whatever else the bytes contain (overrunning descriptor loops, nested
+lengths pointing anywhere), the parser cannot return such a section whose bytes fail the check.
+
+The premise `sectionLength > 0` is necessary: see `empty_crc_section_is_delivered_unchecked` below. -/
+theorem crc_mismatch_never_delivered (payload : Bytes) (d : PSIData) (h : parsePSIData.val payload = .ok d)
+    (k : Nat) (s : PSISection) (hk : d.sections[k]? = some s)
+    (hd : PSISectionHeader) (hh : s.header = some hd) (hcrc : hasCRC32 hd.tableID = true) (hsl : hd.sectionLength > 0) :
+    hd = hdrAt payload (secStart d k) ∧
+    secStart d k + 3 + hd.sectionLength ≤ payload.length ∧
+    s.crc32 = beNat (slice payload (secStart d k + hd.sectionLength - 1) 4) ∧
+    (computeCRC32 (slice payload (secStart d k) (hd.sectionLength - 1))).toNat = s.crc32 :=
+  PSIVerdict.delivered_section_crc payload d h k s hk hd hh hcrc hsl
+
+/-- the loop invariant behind V1, for the whole result: pointer field, location of every section, where the list
+ends (input exhausted, or a stop section: stuffing 0xff / unknown table id) -/
+theorem parsePSIData_sections_located (payload : Bytes) (d : PSIData) (h : parsePSIData.val payload = .ok d) :
+    1 ≤ payload.length ∧ d.pointerField = payload.getD 0 0 ∧
+    PSIVerdict.SectionsAt payload (1 + payload.getD 0 0) d.sections :=
+  PSIVerdict.parsePSIData_spec payload d h
+
+/-- **V1 at the demuxer's interface**: every `DemuxerData` produced from a PSI payload (`psiToData`, Go
+`PSIData.toData`) comes from a section with a CRC-carrying table id, a non-zero section_length and a VALID CRC_32 on
+its byte range.  Sections with section_length 0 — never checked — contribute nothing. -/
+theorem delivered_data_crc_valid (payload : Bytes) (d : PSIData) (h : parsePSIData.val payload = .ok d)
+    (fp : Packet) (pid : Nat) (x : DemuxerData) (hx : x ∈ psiToData d fp pid) :
+    ∃ k s hd, d.sections[k]? = some s ∧ s.header = some hd ∧ hasCRC32 hd.tableID = true ∧ hd.sectionLength > 0 ∧
+      CRCValidOn payload (secStart d k) hd.sectionLength :=
+  PSIVerdict.delivered_data_crc_valid payload d h fp pid x hx
+
+/-- the burst-detection fact of this file in the shape `PSIVerdict` composes with -/
+theorem detects : PSIVerdict.Detects :=
+  fun sec a t b hb hlen hvalid => corrupted_section_rejected sec a t b hb hlen hvalid
+
+/-- **V2, general form — composition of V1 with `burst32_detected`.**  `payload` parses to `d`; its `k`-th section `s`
+carries a CRC and has a body; `payload'` is `payload` hit by a non-zero error pattern confined to at most 32
+consecutive bits lying anywhere inside the byte range `[secStart, secStart + 3 + section_length)` of that section —
+table_id, section_length and CRC field included.  Then, if `payload'` parses at all, NO CRC-carrying section of the
+result occupies that byte range (same start offset and same section_length): the parser returns an error, or
+sections among which none is the old section, nor any other CRC-checked section on those bytes.
+
+What is NOT claimed (and is false, see the examples below): that an error is always returned.  If the burst hits
+table_id it can turn the section into a table without CRC (e.g. PAT 0x00 → ST 0x72: same range, no check); if it hits
+section_length the boundaries move (e.g. section_length → 0: header-only section, delivered unchecked). -/
+theorem corrupted_section_not_redelivered {payload payload' : Bytes} {a t : Nat} {b : List Bool}
+    (hc : Corrupted payload payload' a b t) (hb : b.length ≤ 31)
+    (d : PSIData) (h : parsePSIData.val payload = .ok d)
+    (k : Nat) (s : PSISection) (hk : d.sections[k]? = some s)
+    (hd : PSISectionHeader) (hh : s.header = some hd) (hcrc : hasCRC32 hd.tableID = true) (hsl : hd.sectionLength > 0)
+    (h1 : 8 * secStart d k ≤ a) (h2 : a + (b.length + 1) ≤ 8 * (secStart d k + 3 + hd.sectionLength))
+    (d' : PSIData) (h' : parsePSIData.val payload' = .ok d') :
+    ¬ ∃ k' s' hd', d'.sections[k']? = some s' ∧ s'.header = some hd' ∧ hasCRC32 hd'.tableID = true ∧
+        secStart d' k' = secStart d k ∧ hd'.sectionLength = hd.sectionLength := by
+  rintro ⟨k', s', hd', hk', hh', hcrc', hstart, hlen⟩
+  exact PSIVerdict.corrupted_range_not_delivered detects hc hb d h k s hk hd hh hcrc hsl h1 h2 d' h' k' s' hk' hd' hh'
+    hcrc' hstart hlen
+
+/-- in particular the old section itself is not returned at its place -/
+theorem corrupted_section_itself_not_redelivered {payload payload' : Bytes} {a t : Nat} {b : List Bool}
+    (hc : Corrupted payload payload' a b t) (hb : b.length ≤ 31)
+    (d : PSIData) (h : parsePSIData.val payload = .ok d)
+    (k : Nat) (s : PSISection) (hk : d.sections[k]? = some s)
+    (hd : PSISectionHeader) (hh : s.header = some hd) (hcrc : hasCRC32 hd.tableID = true) (hsl : hd.sectionLength > 0)
+    (h1 : 8 * secStart d k ≤ a) (h2 : a + (b.length + 1) ≤ 8 * (secStart d k + 3 + hd.sectionLength))
+    (d' : PSIData) (h' : parsePSIData.val payload' = .ok d') (k' : Nat) (hst : secStart d' k' = secStart d k) :
+    d'.sections[k']? ≠ some s := by
+  intro hk'
+  exact corrupted_section_not_redelivered hc hb d h k s hk hd hh hcrc hsl h1 h2 d' h'
+    ⟨k', s, hd, hk', hh, hcrc, hst, rfl⟩
+
+/-- **V2, table_id and section_length untouched.**  If the burst lies inside the section but behind its three
+header bytes (anywhere in the body or the CRC field), `parsePSIData` on the corrupted payload returns an ERROR — not
+a panic, not a result: nothing of the payload is delivered.  (No assumption on the sections before the corrupted
+one: they may read past their own end into the corrupted bytes; whatever they then decode, the loop still reaches
+the corrupted section at the same offset, and its CRC check fails.) -/
+theorem corrupted_body_is_error {payload payload' : Bytes} {a t : Nat} {b : List Bool}
+    (hc : Corrupted payload payload' a b t) (hb : b.length ≤ 31)
+    (d : PSIData) (h : parsePSIData.val payload = .ok d)
+    (k : Nat) (s : PSISection) (hk : d.sections[k]? = some s)
+    (hd : PSISectionHeader) (hh : s.header = some hd) (hcrc : hasCRC32 hd.tableID = true) (hsl : hd.sectionLength > 0)
+    (h1 : 8 * (secStart d k + 3) ≤ a) (h2 : a + (b.length + 1) ≤ 8 * (secStart d k + 3 + hd.sectionLength)) :
+    ∃ e, parsePSIData.val payload' = .err e :=
+  PSIVerdict.corrupted_body_rejected detects hc hb d h k s hk hd hh hcrc hsl h1 h2
+
+/-! ### non-vacuity and the excluded points, evaluated on the model -/
+
+/-- the PAT the muxer writes (version 1, one program → PMT PID 0x1000), with pointer field: 17 bytes -/
+def patPayload : Bytes := [0, 0, 176, 13, 0, 0, 195, 0, 0, 0, 1, 240, 0, 239, 190, 8, 90]
+
+/-- a compact view of a parse result: per section (table id, section_length, has syntax, stored CRC) -/
+def view (r : Res PSIData) : Option (List (Nat × Nat × Bool × Nat)) :=
+  match r with
+  | .ok d => some (d.sections.map fun s => ((s.header.getD {}).tableID, (s.header.getD {}).sectionLength, s.syn.isSome, s.crc32))
+  | _ => none
+def isErr (r : Res PSIData) : Bool := match r with | .err _ => true | _ => false
+
+/-- V1's hypotheses are satisfiable: the PAT parses, section 0 carries a CRC, has section_length 13, starts at 1 -/
+example : view (parsePSIData.val patPayload) = some [(0, 13, true, 4022208602)] := by decide +kernel
+example : (computeCRC32 (slice patPayload 1 12)).toNat = 4022208602 ∧ beNat (slice patPayload 13 4) = 4022208602 := by
+  decide +kernel
+
+/-- body hit (byte 10 XOR 0x81: an 8-bit burst at bit 80): `Corrupted` holds, the burst is behind the header bytes
+and inside the section, and the model indeed returns an error -/
+def patBodyHit : Bytes := [0, 0, 176, 13, 0, 0, 195, 0, 0, 0, 128, 240, 0, 239, 190, 8, 90]
+example : Corrupted patPayload patBodyHit 80 [false, false, false, false, false, false, true] 48 :=
+  ⟨by decide, by decide, by decide, by decide +kernel⟩
+example : 8 * (1 + 3) ≤ 80 ∧ 80 + (7 + 1) ≤ 8 * (1 + 3 + 13) := by decide
+example : isErr (parsePSIData.val patBodyHit) = true := by decide +kernel
+
+/-- EXCLUDED POINT 1 (premise `sectionLength > 0` of V1): a section with a CRC-carrying table id and
+section_length 0 is returned WITHOUT any CRC check (Go: `if s.Header.SectionLength > 0 { … }`), with `crc32 = 0`
+and no syntax part; `PSIData.toData` then skips it, so no `DemuxerData` results (`delivered_data_crc_valid`) -/
+example : view (parsePSIData.val [0, 0x00, 0xB0, 0x00]) = some [(0, 0, false, 0)] := by decide +kernel
+theorem empty_crc_section_is_delivered_unchecked :
+    view (parsePSIData.val [0, 0x02, 0xB0, 0x00, 0xff]) = some [(2, 0, false, 0), (255, 0, false, 0)] := by
+  decide +kernel
+
+/-- EXCLUDED POINT 2 (V2 general form gives no error): table_id hit, PAT 0x00 → ST 0x72 (a 6-bit burst at bit 9).
+The same byte range is returned as a table WITHOUT CRC, unchecked, with an empty syntax part: no error is reported.
+(It is not a CRC-carrying section, as `corrupted_section_not_redelivered` says, and yields no `DemuxerData`.) -/
+def patTableIDHit : Bytes := [0, 0x72, 176, 13, 0, 0, 195, 0, 0, 0, 1, 240, 0, 239, 190, 8, 90]
+example : Corrupted patPayload patTableIDHit 9 [true, true, false, false, true] 121 :=
+  ⟨by decide, by decide, by decide, by decide +kernel⟩
+example : view (parsePSIData.val patTableIDHit) = some [(0x72, 13, true, 0)] := by decide +kernel
+
+/-- EXCLUDED POINT 3: section_length hit, 13 → 0 (a 4-bit burst at bit 28) on a PAT whose transport_stream_id is
+0xff00: the parser returns OK with a header-only PAT (never CRC-checked) followed by a "stuffing" stop section —
+the corruption is not reported as an error; nothing of the PAT's content is delivered -/
+def patFF : Bytes := [0, 0, 176, 13, 255, 0, 195, 0, 0, 0, 1, 240, 0, 61, 142, 250, 200]
+def patFFLengthHit : Bytes := [0, 0, 176, 0, 255, 0, 195, 0, 0, 0, 1, 240, 0, 61, 142, 250, 200]
+example : view (parsePSIData.val patFF) = some [(0, 13, true, 1032780488)] := by decide +kernel
+example : Corrupted patFF patFFLengthHit 28 [true, false, true] 104 :=
+  ⟨by decide, by decide, by decide, by decide +kernel⟩
+example : view (parsePSIData.val patFFLengthHit) = some [(0, 0, false, 0), (255, 0, false, 0)] := by decide +kernel
 
 end Astits.C09
